@@ -29,6 +29,21 @@ type Ctl struct {
 	Gate func(thread int, what string)
 	// GateBlobs: blob operations (Grow, Set, Truncate, View, Slice) of records are scheduling points too.
 	GateBlobs bool
+	// GateTxnOps: every Get/Set after the first inside a transaction is a scheduling point too (the thread then waits at the
+	// gate while its transaction is open, i.e. while the inner store is held by it).
+	GateTxnOps bool
+	openTxn    sync.Map // thread -> number of transactions it has open
+}
+
+// HasOpenTxn reports whether the thread is between Transaction() and Commit()/Abort().
+func (c *Ctl) HasOpenTxn(thread int) bool {
+	v, ok := c.openTxn.Load(thread)
+	return ok && v.(int) > 0
+}
+
+func (c *Ctl) txnOpened(thread, d int) {
+	v, _ := c.openTxn.LoadOrStore(thread, 0)
+	c.openTxn.Store(thread, v.(int)+d)
 }
 
 func (c *Ctl) hit(what string) error {
@@ -202,6 +217,7 @@ func (s *Txn) Transaction(o keyvalue.TransactionOptions) (keyvalue.Transaction, 
 	if err != nil {
 		return nil, err
 	}
+	s.C.txnOpened(s.Thread, 1)
 	return &txn{in: t, c: s.C, thread: s.Thread}, nil
 }
 
@@ -211,6 +227,22 @@ type txn struct {
 	thread int
 	n      int
 	failed map[int]error // operations (by position) the store failed
+	closed bool
+}
+
+func (t *txn) gate(what string) {
+	// the first operation of a transaction needs no gate of its own: nothing of the transaction is visible yet,
+	// so a step taken there is the step taken before Transaction()
+	if t.c.Gate != nil && t.c.GateTxnOps && t.n >= 1 {
+		t.c.Gate(t.thread, what)
+	}
+}
+
+func (t *txn) close() {
+	if !t.closed {
+		t.closed = true
+		t.c.txnOpened(t.thread, -1)
+	}
 }
 
 func (t *txn) failOp(path string, err error) keyvalue.OpID {
@@ -225,6 +257,7 @@ func (t *txn) failOp(path string, err error) keyvalue.OpID {
 
 func (t *txn) Get(path string) keyvalue.OpID { return t.GetHandler(path, nil) }
 func (t *txn) GetHandler(path string, h keyvalue.OpHandler) keyvalue.OpID {
+	t.gate("txn.get " + path)
 	if err := t.c.hit("txn.get " + path); err != nil {
 		// the store's Get fails inside the transaction: the operation's result carries the error
 		return t.failOp(path, err)
@@ -236,6 +269,7 @@ func (t *txn) Set(path string, src keyvalue.FileRecord, contents blob.Blob) keyv
 	return t.SetHandler(path, src, contents, nil)
 }
 func (t *txn) SetHandler(path string, src keyvalue.FileRecord, contents blob.Blob, h keyvalue.OpHandler) keyvalue.OpID {
+	t.gate("txn.set " + path)
 	if err := t.c.hit("txn.set " + path); err != nil {
 		// the store rejects the Set: nothing is written, the operation's result carries the error
 		return t.failOp(path, err)
@@ -254,6 +288,7 @@ func (t *txn) SetHandler(path string, src keyvalue.FileRecord, contents blob.Blo
 }
 func (t *txn) Commit(ctx context.Context) ([]keyvalue.OpResult, error) {
 	res, err := t.in.Commit(ctx)
+	t.close()
 	for i := range res {
 		if ferr, bad := t.failed[i]; bad {
 			res[i].Err, res[i].Record = ferr, nil
@@ -267,7 +302,11 @@ func (t *txn) Commit(ctx context.Context) ([]keyvalue.OpResult, error) {
 	}
 	return res, err
 }
-func (t *txn) Abort() error { return t.in.Abort() }
+func (t *txn) Abort() error {
+	err := t.in.Abort()
+	t.close()
+	return err
+}
 
 type wrapRec struct {
 	next keyvalue.OpHandler
